@@ -4,6 +4,7 @@ mod cost;
 mod jura;
 mod perf;
 mod server;
+mod strategy;
 mod uist;
 
 fn usage() -> ! {
@@ -26,6 +27,7 @@ fn main() {
                 "broker" => broker::gen(seed, cases, &a[5], &a[6]),
                 "cost" => cost::gen(seed, cases, &a[5], &a[6]),
                 "perf" => perf::gen(seed, cases, &a[5], &a[6]),
+                "strategy" => strategy::gen(seed, cases, &a[5], &a[6]),
                 "jura" => jura::gen(seed, cases, &a[5], &a[6]),
                 "server-uist" => server::gen(false, seed, cases, &a[5], &a[6]),
                 "server-jura" => server::gen(true, seed, cases, &a[5], &a[6]),
@@ -37,6 +39,7 @@ fn main() {
             "broker" => broker::run(&a[3], &a[4], &a[5]),
             "cost" => cost::run(&a[3], &a[4], &a[5]),
             "perf" => perf::run(&a[3], &a[4], &a[5]),
+            "strategy" => strategy::run(&a[3], &a[4], &a[5]),
             "jura" => jura::run(&a[3], &a[4], &a[5]),
             "server-uist" => server::run::<rotala::http::uist::AppState>(&a[3], &a[4], &a[5]),
             "server-jura" => server::run::<rotala::http::jura::AppState>(&a[3], &a[4], &a[5]),
